@@ -115,6 +115,12 @@ impl UCICommand {
         Ok(Self::Position { kind, moves })
     }
 
+    fn go_value<'a>(args: &[&'a str], idx: usize) -> Result<&'a str, String> {
+        args.get(idx)
+            .copied()
+            .ok_or_else(|| "Missing value in go command!".to_string())
+    }
+
     fn parse_go(args: &[&str]) -> Result<Self, String> {
         let mut limits = SearchLimits::new();
 
@@ -129,7 +135,7 @@ impl UCICommand {
                 "wtime" => {
                     idx += 1;
                     limits = limits.white_time(Some(
-                        args[idx]
+                        Self::go_value(args, idx)?
                             .parse()
                             .map_err(|e| format!("Failed to parse wtime value: {e}"))?,
                     ));
@@ -137,7 +143,7 @@ impl UCICommand {
                 "btime" => {
                     idx += 1;
                     limits = limits.black_time(Some(
-                        args[idx]
+                        Self::go_value(args, idx)?
                             .parse()
                             .map_err(|e| format!("Failed to parse btime value: {e}"))?,
                     ));
@@ -145,7 +151,7 @@ impl UCICommand {
                 "winc" => {
                     idx += 1;
                     limits = limits.white_increment(Some(
-                        args[idx]
+                        Self::go_value(args, idx)?
                             .parse()
                             .map_err(|e| format!("Failed to parse winc value: {e}"))?,
                     ));
@@ -153,7 +159,7 @@ impl UCICommand {
                 "binc" => {
                     idx += 1;
                     limits = limits.black_increment(Some(
-                        args[idx]
+                        Self::go_value(args, idx)?
                             .parse()
                             .map_err(|e| format!("Failed to parse binc value: {e}"))?,
                     ));
@@ -162,7 +168,7 @@ impl UCICommand {
                 "depth" => {
                     idx += 1;
                     limits = limits.depth(Some(
-                        args[idx]
+                        Self::go_value(args, idx)?
                             .parse()
                             .map_err(|e| format!("Failed to parse depth value: {e}"))?,
                     ));
@@ -170,7 +176,7 @@ impl UCICommand {
                 "nodes" => {
                     idx += 1;
                     limits = limits.nodes(Some(
-                        args[idx]
+                        Self::go_value(args, idx)?
                             .parse()
                             .map_err(|e| format!("Failed to parse nodes value: {e}"))?,
                     ));
@@ -179,7 +185,7 @@ impl UCICommand {
                 "movetime" => {
                     idx += 1;
                     limits = limits.movetime(Some(
-                        args[idx]
+                        Self::go_value(args, idx)?
                             .parse()
                             .map_err(|e| format!("Failed to parse movetime value: {e}"))?,
                     ));
